@@ -11,7 +11,7 @@ import vlib
 import C13_gen as G
 from codec_common import compile_many, run_routed, correspond_with, IO_LIBS, hexbytes
 
-SEL = {"bmp": 1, "bmprle": 1, "pnm": 2, "targa": 3}
+SEL = {"bmp": 1, "bmprle": 1, "bmprlef": 1, "pnm": 2, "targa": 3}
 
 def rects(w, h):
     return [(x, y, dx, dy) for x in range(w) for dx in range(1, w - x + 1) for y in range(h) for dy in range(1, h - y + 1)]
@@ -186,6 +186,12 @@ def run(ctx, ops=None):
     if any_fixed:
         ctx.notes.append("tree under test carries the proposed any_image format checker fix: model variant pathsA")
         ops = [("pathsA" + o[5:]) if o.startswith("paths ") else o for o in ops]
+    try:
+        rle_fixed = "Buf_type buf( this->_settings._dim.x )" not in open(os.path.join(ctx.include, "boost/gil/extension/io/bmp/detail/read.hpp")).read()
+    except OSError: rle_fixed = False
+    if rle_fixed:
+        ctx.notes.append("tree under test carries the proposed RLE sub-rectangle fix: model variant bmprlef")
+        ops = [o.replace(" bmprle ", " bmprlef ", 1) for o in ops]
     mono = mono_variant(ctx)
     if mono != "gray1":
         ctx.notes.append("tree under test carries the proposed pnm gray1 fix: model variant %s" % mono)
